@@ -260,15 +260,12 @@ def scen_history(env, cfg):
     for step, (sps, R) in enumerate(((2, '8e9'), (4, '8e9'), (2, '8e9'), (8, '4e9'))):
         T.gv(sps=sps, R=env.const(R))
         fs = sps * float(R)
-        k0 = len(env.events('bessel')) if env.impl == 'model' else 0
         y = D.LPF(T.electrical_signal(list(xs)), BW) if kind == 'LPF' else D.BPF(T.optical_signal(list(xs)), BW)
         sos = sg.bessel(N=4, Wn=(2e9 if kind == 'LPF' else 1e9), btype='low', fs=fs, output='sos', norm='mag')
         ref = sg.sosfiltfilt(sos, numpy.eye(L), axis=0)
         exp = [sum(xs[j] * env.num(ref[i, j]) for j in range(L) if ref[i, j] != 0.0) for i in range(L)]
         env.check(f'call {step} (fs = {fs:g}): the filter is designed for the sampling rate now in force, whatever was designed before',
                   env.And([env.eq(env.re(u), v, scale=30) for u, v in zip(env.items(y.signal), exp)]))
-        if env.impl == 'model':
-            env.check(f'call {step}: a design call is made for this call', len(env.events('bessel')) == k0 + 1)
 
 
 def configs(tier):
